@@ -136,6 +136,8 @@ func OptPool() []*OptDecl {
 		{Names: []string{"q", "qq"}},
 		{Names: []string{"n", "dry-run", "N"}, Flag: true},
 		{Names: []string{"e", "e_1", "E"}, Multi: true},
+		{Names: []string{"i"}, Flag: true},
+		{Names: []string{"f", "force"}, Flag: true},
 	}
 }
 
